@@ -573,14 +573,18 @@ theorem tos_finishTask (s : State) (w : Nat) (err : Option WErr) : TermOrSame (p
     split
     · exact tos_same (by simp)
     · split
-      · exact tos_of_eq (by simp) (tos_terminate _ _)
       · split
         · exact tos_same (by simp)
+        · exact tos_same (by simp)
+      · split
+        · exact tos_of_eq (by simp) (tos_terminate _ _)
         · split
-          · exact tos_of_eq (by simp) (tos_terminate _ _)
+          · exact tos_same (by simp)
           · split
             · exact tos_of_eq (by simp) (tos_terminate _ _)
-            · exact tos_same (by simp)
+            · split
+              · exact tos_of_eq (by simp) (tos_terminate _ _)
+              · exact tos_same (by simp)
 
 theorem park_execTx (s : State) (party : Party) (p : Peer) (id : Id) (ops : List TxOp) :
     parkNew (execTx s party p id ops).1.park = parkNew s.park := by
